@@ -55,7 +55,7 @@ def new_block(I, cls: str, n=1):
     raise ValueError(cls)
 
 
-def new_item(I, cls: str, label, n=1, fill=1.0):
+def new_item(I, cls: str, label, n=1, fill=1.0, nvals=1):
     if cls == "data3d":
         return marker_track(I, label, n, fill)
     if cls == "force3d":
@@ -63,7 +63,7 @@ def new_item(I, cls: str, label, n=1, fill=1.0):
     if cls == "emg":
         return emg_track(I, label, n, fill)
     if cls == "events":
-        return event(I, label)
+        return event(I, label, nvals=nvals)
     raise ValueError(cls)
 
 
